@@ -165,6 +165,35 @@ def cutTerminal {α : Type} (ignore : Bool) : List (Ev α) → List (Ev α)
   | .ok a :: rest => .ok a :: cutTerminal ignore rest
   | .error e :: rest => if terminal ignore e then [.error e] else .error e :: cutTerminal ignore rest
 
+/-! ## A caller that goes on after the first error
+
+`list(it)` / `for x in it` ends at `StopIteration` or at the first exception that `next()` raises; the
+iterator OBJECT is still there afterwards and `next()` can be called on it again.  What those later
+calls do is where the two kinds differ (property C12: "the first error reaches the caller …, iteration
+stops"). -/
+
+/-- `for x in it: out.append(x)` by the caller: `next()` until `StopIteration` or an exception (at most
+`fuel` calls); the values handed out, the exception that ended the loop (if any), and the state of the
+iterator object afterwards -/
+def consume {α σ : Type} (next : σ → Step α σ) : Nat → σ → List α × Option Err × σ
+  | 0, s => ([], none, s)
+  | fuel + 1, s =>
+    match next s with
+    | .yield a s' => let r := consume next fuel s'; (a :: r.1, r.2.1, r.2.2)
+    | .stop => ([], none, s)
+    | .raise e s' => ([], some e, s')
+
+/-- `k` further `next()` calls on the same iterator object: what each call did (`none` =
+`StopIteration`, `some (.ok a)` = it handed out `a`, `some (.error e)` = it raised), and the state
+afterwards -/
+def calls {α σ : Type} (next : σ → Step α σ) : Nat → σ → List (Option (Ev α)) × σ
+  | 0, s => ([], s)
+  | k + 1, s =>
+    match next s with
+    | .yield a s' => let r := calls next k s'; (some (.ok a) :: r.1, r.2)
+    | .stop => let r := calls next k s; (none :: r.1, r.2)
+    | .raise e s' => let r := calls next k s'; (some (.error e) :: r.1, r.2)
+
 /-! ## The lock wrapper of the threaded runner (`_ThreadSafeIterator`, iter_utils.py:835–848)
 
 ```
